@@ -10,12 +10,12 @@ CLAIMED = {
    ref="DESIGN.md §3 C20"),
  "C11": dict(
    technique="static analysis: SSA must-lockset over the limiter's captured state, must-pass-through/guard-edge path queries on the admitting closure, header-taint of getClientIP, wiring def-use in cmd/glyph, doc-vs-switch table",
-   text="Structural necessary conditions of per-client rate limiting decided over every site: bucket table and counters only under the limiter mutex with test+decrement in one critical section; next(ctx) only after the decrement; the budget comparison rejects 0 and admits 1 (comparison evaluated at the boundary); the no-budget edge answers 429 and never reaches the body; table keyed by getClientIP(this request); header-derived identity only under trustProxy; declared limiter always appended; documented window spellings have a case.",
+   text="Structural necessary conditions of per-client rate limiting decided over every site: bucket table and counters only under the limiter mutex with test+decrement in one critical section; next(ctx) only after the decrement; the budget comparison rejects 0 and admits 1 (comparison evaluated at the boundary); the no-budget edge answers 429 and never reaches the body; table keyed by getClientIP(this request); header-derived identity only under trustProxy; declared limiter always appended; documented window spellings have a case. Also: each route receives the limiter constructed by its own rateLimitMiddleware call.",
    note="Does not cover the numeric bound N*(1+T/window), refill arithmetic or unit-conversion values (known deviation: N/hour becomes a bucket of ceil(N/60)), nor behaviour in real time. Trusted: go/types, go/ssa; role-based slot resolution (unique local mutex / map of *clientLimit).",
    ref="DESIGN.md §3 C11"),
  "C06": dict(
    technique="static analysis: def-use wiring of server.Route/ast.Route literals, guard-edge cut path queries (credential-accepted edges) on every auth closure, loop-bound evaluation of the middleware fold, must-lockset over failure trackers, header taint",
-   text="Structural necessary conditions of fail-closed auth decided at every site: each server.Route built from a declared route carries routeMiddlewares(that route); every ast.Route literal keeps .Auth; both dispatchers fold all Middlewares (index range evaluated) before calling the handler; authMiddleware returns nil only for undeclared auth, enables bearer/apikey checking only with a non-empty configured secret/key set and otherwise denyAll; in every credential closure next is unreachable once credential-accepted edges are cut; lock-out test dominates the credential read and rejected credentials are counted; tracker state only under its mutex.",
+   text="Structural necessary conditions of fail-closed auth decided at every site: each server.Route built from a declared route carries routeMiddlewares(that route); every ast.Route literal keeps .Auth; both dispatchers fold all Middlewares (index range evaluated) before calling the handler; authMiddleware returns nil only for undeclared auth, enables bearer/apikey checking only with a non-empty configured secret/key set and otherwise denyAll; in every credential closure next is unreachable once credential-accepted edges are cut; lock-out test dominates the credential read and rejected credentials are counted; tracker state only under its mutex. Also: the dispatchers never store into the registered server.Route.",
    note="Does not cover JWT semantics, lock-out arithmetic, timing channels. Accept-all placeholders (nil credential set) are reasoned exceptions paired with a call-site rule. Trusted: go/types, go/ssa.",
    ref="DESIGN.md §3 C06"),
  "C16": dict(
@@ -30,7 +30,7 @@ CLAIMED = {
    ref="DESIGN.md §3 C15"),
  "C09": dict(
    technique="static analysis: SSA must-lockset + ordering/typestate path queries over interpreter.Future, goroutine free-variable (capture) analysis for async blocks in both engines, await-after-done guard-edge rule",
-   text="Structural necessary conditions decided at every site: Future outcome fields only under Future.mu; every settling write and close(done) is behind the already-resolved test, resolved is set and the outcome written before done closes, done closes once; no blocking channel operation under Future.mu; Await* and the VM's FutureValue readers touch the outcome only after receiving from done; the interpreter's async goroutine captures only a detached Environment; the VM's async goroutine captures no *VM and only values created in execAsync, its first deferred call closes Done and only it writes Result/Error; All stores values at their future's index; Any's shared state is under its mutex.",
+   text="Structural necessary conditions decided at every site: Future outcome fields only under Future.mu; every settling write and close(done) is behind the already-resolved test, resolved is set and the outcome written before done closes, done closes once; no blocking channel operation under Future.mu; Await* and the VM's FutureValue readers touch the outcome only after receiving from done; the interpreter's async goroutine captures only a detached Environment; the VM's async goroutine captures no *VM and only values created in execAsync, its first deferred call closes Done and only it writes Result/Error; All stores values at their future's index; Any's shared state is under its mutex. Also: the functions accepted as detaching (Snapshot) return an environment without parent.",
    note="Does not cover determinism under all schedules, first-settled/first-success as history properties, VM jump relocation inside embedded async bodies. Trusted: go/types, go/ssa.",
    ref="DESIGN.md §3 C09"),
  "C13": dict(
@@ -55,7 +55,7 @@ CLAIMED = {
    ref="DESIGN.md §3 C12"),
  "C04": dict(
    technique="static analysis: must-pass-through / ordering path queries (depth budget pairing, loop-counter advance on every back edge, step-bound typestate on *vm.VM), goroutine recover rule, panic-site audit (interface equality, integer division, unchecked assertions), error-text taint to response writers, serialise-before-commit ordering",
-   text="Layered structural necessary conditions decided at every site: the evaluation-depth test dominates dispatch and every exit after the increment decrements; the while-loop counter advances on every way around the loop and its limit test dominates the body; every VM has a positive step bound and runLoop enforces it; both HTTP dispatch entries recover to a 500; every goroutine of interpreter/VM that can run user code recovers; no unguarded interface ==, unchecked assertion or unguarded integer division in the engines; no Go error/panic text reaches a response whose status is not a constant 4xx, 5xx interpreter responses are constant, execution errors end in a status writer, and route results are marshalled before the status is committed.",
+   text="Layered structural necessary conditions decided at every site: the evaluation-depth test dominates dispatch and every exit after the increment decrements; the while-loop counter advances on every way around the loop and its limit test dominates the body; every VM has a positive step bound and runLoop enforces it; both HTTP dispatch entries recover to a 500; every goroutine of interpreter/VM that can run user code recovers; no unguarded interface ==, unchecked assertion or unguarded integer division in the engines; no Go error/panic text reaches a response whose status is not a constant 4xx, 5xx interpreter responses are constant, execution errors end in a status writer, and route results are marshalled before the status is committed. Also: BND bounds rule over both engines (C04-R12) and the deferred-restore rule for the evaluation-depth counter.",
    note="Does not cover index/nil panics in general, stack exhaustion in libraries, wall-clock bounds, limit values. Trusted: go/types, go/ssa.",
    ref="DESIGN.md §3 C04"),
  "C19": dict(
@@ -65,17 +65,17 @@ CLAIMED = {
    ref="DESIGN.md §3 C19"),
  "C08": dict(
    technique="static analysis: shared write-set over the request-reachable call graph (CHA), must-lockset over provider stores plus split read-modify-write rule, reference-escape (live record) audit, per-request freshness def-use, who-may-write rule for compiledTypeDefs",
-   text="Structural necessary conditions decided at every site: no request-reachable function of the interpreter writes the shared Interpreter/TypeChecker/ModuleResolver/globalEnv/package state without a lock; each compiled request executes on a VM created in its own closure and each interpreted request in an Environment created in ExecuteRoute; every access to the mock/real provider stores is under the owning mutex and no lookup-unlock-relock-write sequence exists; store methods neither return stored maps nor keep caller maps without copying; compiledTypeDefs is assigned only by setCompiledTypeDefs from setupRoutes and the compiled request path keeps no package-level Once/Pool state.",
+   text="Structural necessary conditions decided at every site: no request-reachable function of the interpreter writes the shared Interpreter/TypeChecker/ModuleResolver/globalEnv/package state without a lock; each compiled request executes on a VM created in its own closure and each interpreted request in an Environment created in ExecuteRoute; every access to the mock/real provider stores is under the owning mutex and no lookup-unlock-relock-write sequence exists; store methods neither return stored maps nor keep caller maps without copying; compiledTypeDefs is assigned only by setCompiledTypeDefs from setupRoutes and the compiled request path keeps no package-level Once/Pool state. Also: request-time values of mutable or unknown type are not published in a shared sync.Map.",
    note="Does not cover atomicity of multi-step protocols in user programs, scheduling-dependent outcomes, sharing of nested values inside copied records. Known findings: the evaluation-depth budget and TypeChecker.typeScope are shared between concurrent requests. Trusted: go/types, go/ssa, CHA call graph.",
    ref="DESIGN.md §3 C08"),
  "C05": dict(
    technique="static analysis: key-provenance def-use (interprocedural over route helpers), guard-edge path queries on both dispatchers, registration-literal def-use, router who-may-write / comparison-shape rules, switch exhaustiveness",
-   text="Structural necessary conditions decided at every site: compiled bytecode is stored and fetched under a key derived from both the route's method and path; each dispatcher invokes a handler only on Router.Match's success edge, runs the matched route, binds its path parameters and answers 404 (running nothing) otherwise; every server.Route built from a declaration carries that declaration's path and converted method, and the conversion has a distinct arm per method; the route table is written only by RegisterRoute (append, never sorted), Match returns only matchRoute hits, scans all candidates and replaces its best only on a strict fewer-parameters comparison; the interpreter receives the decoded URL path.",
+   text="Structural necessary conditions decided at every site: compiled bytecode is stored and fetched under a key derived from both the route's method and path; each dispatcher invokes a handler only on Router.Match's success edge, runs the matched route, binds its path parameters and answers 404 (running nothing) otherwise; every server.Route built from a declaration carries that declaration's path and converted method, and the conversion has a distinct arm per method; the route table is written only by RegisterRoute (append, never sorted), Match returns only matchRoute hits, scans all candidates and replaces its best only on a strict fewer-parameters comparison; the interpreter receives the decoded URL path. Also: both engines bind the request segment itself (no call between the split path and the bound value) and matchRoute compares segments with segments only.",
    note="Does not cover Match's specificity order as a function over all tables/requests, nor net/url and ServeMux behaviour. Trusted: go/types, go/ssa.",
    ref="DESIGN.md §3 C05"),
  "C07": dict(
    technique="static analysis: guard-edge cut path queries (validate-before-run in both engines, result check), boundary-stage table comparison between the two engines, parse-error propagation and fail-closed-limit rules, route-literal fidelity, who-may-write rule on the compiled request path",
-   text="Structural necessary conditions decided at every site: with the no-contract edges and the validator's success edge cut, neither engine can reach the route body; validation failures are 4xx and stop; the validated value is the one bound as input; every ordinary interpreter result passes CheckType or is a marker response and a mismatch is 5xx; both engines reach the same boundary stages; a required field's value is nil-tested; each typed query conversion has its arm and returns the parse error on the failure edge; validator limits fail closed; the compiled path keeps no cached checker state; every Route literal keeps InputType/ReturnType/QueryParams.",
+   text="Structural necessary conditions decided at every site: with the no-contract edges and the validator's success edge cut, neither engine can reach the route body; validation failures are 4xx and stop; the validated value is the one bound as input; every ordinary interpreter result passes CheckType or is a marker response and a mismatch is 5xx; both engines reach the same boundary stages; a required field's value is nil-tested; each typed query conversion has its arm and returns the parse error on the failure edge; validator limits fail closed; the compiled path keeps no cached checker state; every Route literal keeps InputType/ReturnType/QueryParams. Also: the query converters see exactly rawParams[name] and convert every element; body presence is never an ordering test of ContentLength against 0/1; defaults are evaluated for each request.",
    note="Does not cover CheckType/TypesCompatible decisions over all types x documents. Known findings: the compiled (default) engine applies neither declared defaults nor the return-type check. Trusted: go/types, go/ssa.",
    ref="DESIGN.md §3 C07"),
  "C18": dict(
@@ -85,22 +85,22 @@ CLAIMED = {
    ref="DESIGN.md §3 C18"),
  "C10": dict(
    technique="static analysis: sibling-table agreement over opcode and constant-tag tables (writer / VM / disassembler), bounded-allocation and length-guard dominance rules on untrusted buffers, recursion-guard coverage over the parser's call graph (SCC), loader-limit rules",
-   text="Structural necessary conditions decided over every table entry and site: each opcode has a VM arm, the same operand-ness in VM, compiler and decompiler, a name, matching emit sites and jump relocation; constant tags and widths agree between writer and both readers; every allocation sized from the input is behind a bound check; every non-constant index/slice of the bytecode buffers and of the lexers' input is behind a length comparison; Push caps the stack and runLoop bounds pc and steps; after removing depth-guarded functions the parser's call graph has no cycle (two precedence-climbing self-recursions are shape-verified exceptions).",
+   text="Structural necessary conditions decided over every table entry and site: each opcode has a VM arm, the same operand-ness in VM, compiler and decompiler, a name, matching emit sites and jump relocation; constant tags and widths agree between writer and both readers; every allocation sized from the input is behind a bound check; every non-constant index/slice of the bytecode buffers and of the lexers' input is behind a length comparison; Push caps the stack and runLoop bounds pc and steps; after removing depth-guarded functions the parser's call graph has no cycle (two precedence-climbing self-recursions are shape-verified exceptions). Also: the depth guard cannot be bypassed on a success path; header fields holding decoded sizes are untrusted; no narrow-integer arithmetic on an untrusted value before a bounds test; the parser never re-parses after rewinding its cursor; relocation steps over embedded bodies.",
    note="Does not cover memory proportionality in general, parser accept/reject correctness, disassembly text. Trusted: go/ast, go/types, go/ssa.",
    ref="DESIGN.md §3 C10"),
  "C02": dict(
    technique="static analysis: sibling-table agreement (opcode tables, dispatch arms of compiler vs interpreter, builtin name tables, request-binding name tables), no-silent-noop path rule over compile methods, engine-selection dominance in setupRoutes, constant-identity / operand-aliasing / body-detection shape rules",
-   text="Structural necessary conditions decided over every table entry and site: opcode tables agree across VM, compiler and decompiler; every construct the compiler accepts has an interpreter arm; no compile method succeeds without emitting or delegating; OpCall emission is gated on a resolvable name; names bound by the compiled handler equal those bound by the interpreter and every pre-declared name is bound; compiled registration happens only under useCompiler and injections / compile errors switch the whole module; constant-pool identity is type-aware; VM handlers never append onto operand storage; both handlers detect JSON bodies with the same operations.",
-   note="Does not cover agreement of evaluation results over programs x inputs (operator/coercion/builtin semantics, async-with-jumps on the VM). Known findings: validation statements compile to nothing; the compiler emits calls the VM cannot resolve. Trusted: go/ast, go/types, go/ssa.",
+   text="Structural necessary conditions decided over every table entry and site: opcode tables agree across VM, compiler and decompiler; every construct the compiler accepts has an interpreter arm; no compile method succeeds without emitting or delegating; OpCall emission is gated on a resolvable name; names bound by the compiled handler equal those bound by the interpreter and every pre-declared name is bound; compiled registration happens only under useCompiler and injections / compile errors switch the whole module; constant-pool identity is type-aware; VM handlers never append onto operand storage; both handlers detect JSON bodies with the same operations. Also: jump relocation steps over embedded async bodies; no sync.Once body on the compiled path reads a package variable that is reassigned later; a table with deletions never takes a new key from its own size; constant-pool deduplication is kind-strict.",
+   note="Does not cover agreement of evaluation results over programs x inputs (operator/coercion/builtin semantics). Known findings: validation statements compile to nothing; the compiler emits calls the VM cannot resolve. Trusted: go/ast, go/types, go/ssa.",
    ref="DESIGN.md §3 C02"),
  "C03": dict(
    technique="static analysis: exhaustiveness of the optimiser's kill-set collector over the statement kinds computed from pkg/ast, per-arm invalidation rules over the syntax tree of OptimizeStatements, whitelist/guard-edge rule for loop-invariant hoisting, panic-site and literal-kind rules in the folder, reset-before-optimise path rule, level plumbing",
-   text="Structural conservativeness obligations of a flow-insensitive fact map, decided over every statement kind and arm: the modified-variable collector covers every assigning/nesting statement kind in value and pointer form; each nesting arm of OptimizeStatements invalidates every nested block, the if arm resets facts between and after its branches, the default arm invalidates, and only return statements start dead-code elimination; hoisting is behind a whitelist whose default refuses; integer folds are behind non-zero tests and literal kinds are never promoted; Reset discards optimiser facts and every Compile* entry resets before optimising; level 0 is the identity.",
-   note="Does not cover semantic preservation of individual rewrites over all values (equality of results across levels). Known residue: LICM may still move a plain assignment out of a loop that runs zero times. Trusted: go/ast, go/types, go/ssa.",
+   text="Structural conservativeness obligations of a flow-insensitive fact map, decided over every statement kind and arm: the modified-variable collector covers every assigning/nesting statement kind in value and pointer form; each nesting arm of OptimizeStatements invalidates every nested block, the if arm resets facts between and after its branches, the default arm invalidates, and only return statements start dead-code elimination; hoisting is behind a whitelist whose default refuses; integer folds are behind non-zero tests and literal kinds are never promoted; Reset discards optimiser facts and every Compile* entry resets before optimising; level 0 is the identity. Also: fact maps are never aliased (snapshot/restore install fresh maps); the optimiser never stores into a syntax-tree node it was given; every fact recording is preceded by a complete kill of the assigned variable in the same statement; loops forget the body's facts after the body; every compile unit optimises on a fresh fact set; LICM moves a computation, not the program's own declaration (known finding).",
+   note="Does not cover semantic preservation of individual rewrites over all values (equality of results across levels). Known finding: LICM hoists the loop body's own declaration (scope change / zero-trip execution); the repair contradicts an existing optimizer unit test. Trusted: go/ast, go/types, go/ssa.",
    ref="DESIGN.md §3 C03"),
  "C01": dict(
    technique="static analysis: dispatch exhaustiveness over the syntactic forms computed from pkg/ast, scope-freshness def-use with loop membership, map-range determinism audit, documentation-vs-parser precedence table, precedence-climbing boundary evaluation, depth-budget pairing path rule",
-   text="Structural necessary conditions decided over every form and site: each Expr/Statement/Pattern/Literal kind and each BinOp/UnOp has an evaluation arm (parser and evaluator agree on the operator set; exceptions listed by type with reasons); every block and match arm runs in an environment created for it in that function and, inside loops, per iteration; no order-dependent loop ranges a Go map unsorted in either engine; every documented operator has the documented precedence level in the parser, the climbing loop continues at equal precedence and recurses at precedence+1; the shared depth budget is restored on every exit.",
+   text="Structural necessary conditions decided over every form and site: each Expr/Statement/Pattern/Literal kind and each BinOp/UnOp has an evaluation arm (parser and evaluator agree on the operator set; exceptions listed by type with reasons); every block and match arm runs in an environment created for it in that function and, inside loops, per iteration; no order-dependent loop ranges a Go map unsorted in either engine; every documented operator has the documented precedence level in the parser, the climbing loop continues at equal precedence and recurses at precedence+1; the shared depth budget is restored on every exit. Also: run-time integers reaching an index/slice/make in the builtins and index expressions of both engines are proven in range by dominating comparisons on the very values used (BND); the depth counter is restored by a deferred call so a recovered panic cannot leak it.",
    note="Does not cover values computed by operators/builtins, coercions, match semantics, error texts. The precedence sub-rule reads docs/LANGUAGE_SPECIFICATION.md (UNDECIDED, not violated, if fewer than 10 rows parse). Trusted: go/ast, go/types, go/ssa.",
    ref="DESIGN.md §3 C01"),
 }
